@@ -1,7 +1,7 @@
 (** extraction of the MULgraph model: one case per line.
       W <geo>          model write          -> OK <hex bytes> | RAISE <exn>
       R <hex bytes>    model read           -> OK <geo> | RAISE <exn>
-      F <geo>          hypotheses           -> wf=<0|1> nwf=<0|1> rt=<0|1> idemok=<0|1> nidem=<0|1> idem=<0|1> namesok=<0|1> names=<0|1>
+      F <geo>          hypotheses           -> wf=<0|1> nwf=<0|1> rt=<0|1> idemok=<0|1> nidem=<0|1> idem=<0|1> namesok=<0|1> names=<0|1> awf=<0|1> sephyp=<0|1> mag=<0|1>
                          wf / nwf / idemok / nidem (= aidem_ok) / namesok: the boolean hypotheses of the theorems (read-back, fits, field-level re-format, arithmetic, name lists)
                          rt:   read (write g) = Ok (canon g)  (evaluated, as the theorem says when wf=1)
                          idem: write (canon g) = write g      (evaluated, as the theorem says when wf=1 and idemok=1)
@@ -11,7 +11,7 @@
 From Coq Require Import Ascii String List Bool Arith ZArith NArith.
 From PTBase Require Import Exn PyStr PyNum PyVal Fmt FixedFormat Wire.
 From Gen Require Import GenTables GenMulgrid.
-From P Require Import Flt Lines MulgridIO RoundTrip Header Idem Fields Natural NatIdem Canon NameLists HdrIdem.
+From P Require Import Flt Lines MulgridIO RoundTrip Header Idem Fields Natural NatIdem Canon NameLists HdrIdem HdrOk ErrBound Margin Feet2.
 Import ListNotations.
 
 Definition colon : ascii := ":"%char.
@@ -204,10 +204,12 @@ Definition run_case (line : str) : str :=
                       | Ok b => match read b with Ok g' => str_eqb (show_geo g') (show_geo (canon g)) | Raise _ => false end
                       | Raise _ => false end in
             let idem := res_eqb (write (canon g)) w in
-            app (s2l "wf=") (app (show_bool (wf g)) (app (s2l " nwf=") (app (show_bool (nwf g)) (app (s2l " rt=") (app (show_bool rt)
-              (app (s2l " idemok=") (app (show_bool (idem_ok g)) (app (s2l " nidem=") (app (show_bool (aidem_ok g)) (app (s2l " idem=") (app (show_bool idem)
-              (app (s2l " namesok=") (app (show_bool (hdr_ok (g_hdr g) && str_eqb (h_type (canon_header (g_hdr g))) (s2l supported_type) && names_canonical g && cmp_ok g))
-              (app (s2l " names=") (show_bool (str_eqb (show_names (canon g)) (show_names g)))))))))))))))))
+            let kv (k : string) (b : bool) : str := app (s2l k) (show_bool b) in
+            join_c " "%char
+              [kv "wf=" (wf g); kv "nwf=" (nwf g); kv "rt=" rt; kv "idemok=" (idem_ok g); kv "nidem=" (aidem_ok g); kv "idem=" idem;
+               kv "namesok=" (hdr_ok (g_hdr g) && str_eqb (h_type (canon_header (g_hdr g))) (s2l supported_type) && names_canonical g && cmp_ok g);
+               kv "names=" (str_eqb (show_names (canon g)) (show_names g));
+               kv "awf=" (awf g); kv "sephyp=" (names_hyp g); kv "mag=" (coords_mag (scale_or_one (h_unit (g_hdr g))) g)]
         end
       else if str_eqb k (s2l "N") then
         match geo_of_tokens args with
